@@ -474,9 +474,20 @@ def run_cases(seed, lo, hi, extra):
                     prop = "C04" if err in ("notFound", "ambiguous", "noIndex") else "C05"
                     st.failures.append({"prop": prop, "sig": f"{prop}/strict-replay/{err}/{an}/second-right-document-on-one-differ", "action_index": k, **d3})
                 elif m3.startswith("ok "):
-                    dd = xt.doc_eq(xt.dec_tree(m3[3:].split(" | ", 1)[1]), ru3[1], ignored=ign)
+                    flags3, tr3 = m3[3:].split(" | ", 1)
+                    dd = xt.doc_eq(xt.dec_tree(tr3), ru3[1], ignored=ign)
                     if dd:
                         st.failures.append({"prop": "C05", "sig": "C05/strict-replay-differs-from-right/second-right-document-on-one-differ", "detail": dd, **d3})
+                    # C17 on the script a used Differ gives for the second right document: every action changes the document,
+                    # nothing created is deleted, the counting bounds hold against (L, second right document)
+                    for k, f in enumerate(flags3.strip()):
+                        if f == "0":
+                            st.failures.append({"prop": "C17", "sig": f"C17/action-changes-nothing/{type(s3[k]).__name__}/second-right-document-on-one-differ", "action_index": k, **d3})
+                            break
+                    if "X" in flags3:
+                        st.failures.append({"prop": "C17", "sig": "C17/created-node-deleted/second-right-document-on-one-differ", **d3})
+                    for prop_, sig_, detail_ in oracle_bounds(s3, L, ru3[1]):
+                        st.failures.append({"prop": prop_, "sig": sig_ + "/second-right-document-on-one-differ", "detail": detail_, **d3})
         if eq:
             st.count("equal_pairs")
             # ---- U2eq: the oracle hypotheses of C03_equal_documents_empty_script against the real node_ratio
@@ -557,7 +568,7 @@ def run_ns_cases(seed, lo, hi, extra):
     shared = _diffmod.Differ()
     for idx in range(lo, hi):
         r = core.rng_for(seed, "ns", idx)
-        L, R = gen.ns_pair(r, 12 if tier == "quick" else r.choice([8, 12, 25]))
+        L, R = gen.ns_pair(r, 12 if tier == "quick" else r.choice([8, 12, 25]), second_alias=True)
         opts = gen.rand_opts(r)
         st.evaluations += 1
         st.units["NSoracle"] = st.units.get("NSoracle", 0) + 1
